@@ -12,9 +12,11 @@ if "--checks" in args:
     checks = args[args.index("--checks") + 1].split(",")
 if "--tier" in args:
     tier = args[args.index("--tier") + 1]
-wt = "/tmp/seed/%s" % pid
-diff = os.path.join(wt, "m%s.diff" % k)
-demo = os.path.join(wt, "demo_m%s.py" % k)
+root = os.environ.get("SEED_ROOT", "/tmp/seed")
+srck = os.environ.get("SEED_SRC_K", k)  # round two: worktree files m1/m2 are stored as m3/m4
+wt = "%s/%s" % (root, pid)
+diff = os.path.join(wt, "m%s.diff" % srck)
+demo = os.path.join(wt, "demo_m%s.py" % srck)
 def sh(cmd, **kw):
     return subprocess.run(cmd, shell=True, capture_output=True, text=True, **kw)
 assert sh("git -C %s status --porcelain -- pypika_tortoise" % wt).stdout.strip() == "", "worktree not clean"
@@ -45,7 +47,7 @@ os.makedirs(dst, exist_ok=True)
 shutil.copy(diff, os.path.join(dst, "patch.diff"))
 shutil.copy(demo, os.path.join(dst, "demo.py"))
 base = sh("git -C %s rev-parse --short HEAD" % wt).stdout.strip()
-meta = {"property": pid, "summary": summary, "needs": needs, "base_commit": base,
+meta = {"property": pid, "summary": summary, "needs": needs, "base_commit": base, "round": 1 if root == "/tmp/seed" else 2,
         "verified": {"repo_tests_with_change": t, "demo_exit_with_change": d1.returncode, "demo_exit_without_change": d0.returncode,
                      "demo_output_with_change": (d1.stdout + d1.stderr).strip()[:600],
                      "how": "git apply in a scratch worktree of /repo HEAD; /venv/bin/python -m pytest -q -p no:cacheprovider; /venv/bin/python demo.py; VERIF_REPO_DIR=<worktree> ./check <ID> %s" % tier},
